@@ -23,13 +23,13 @@ def build(ctx, nopool):
 
 
 def run(ctx):
-    n = ctx.n(8000, 500000)
+    n = ctx.n(8000, 150000)
     per = max(1, n // core.NCPU)
     jobs = []
     for mode in (0, 1):
         exe = build(ctx, bool(mode))
         for i in range(core.NCPU):
-            jobs.append((exe, ctx.seed * 4447 + 11 + mode, i * per, per, ['nopool' if mode else 'pool']))
+            jobs.append((exe, ctx.seed * 4447 + 11 + mode, i * per, per, ['nopool' if mode else 'pool'], None, 600 if ctx.quick() else 5000))
     res = core.pmap(core.selfgen_shard, jobs)
     core.merge(ctx, res)
     ctx.add_sample('reader history: seed-derived sequence of wait(k)/peek/consume(j)/cancel with k from 1 to 20000 on a keyed '
